@@ -184,17 +184,28 @@ def rinfo_source(channel) -> None:
 
 
 def _find_non_builtin_globals(source: str, codeobj: types.CodeType) -> list[str]:
-    import ast
     import builtins
+    import symtable
 
-    vars = dict.fromkeys(codeobj.co_varnames)
-    return [
-        node.id
-        for node in ast.walk(ast.parse(source))
-        if isinstance(node, ast.Name)
-        and node.id not in vars
-        and node.id not in builtins.__dict__
-    ]
+    found: list[str] = []
+
+    def visit(table: symtable.SymbolTable, toplevel: bool) -> None:
+        for symbol in table.get_symbols():
+            if toplevel:
+                # names used by the ``def`` statement itself
+                # (decorators, default values, annotations)
+                is_global = symbol.is_referenced() and not (
+                    symbol.is_assigned() or symbol.is_imported()
+                )
+            else:
+                is_global = symbol.is_global()
+            if is_global and symbol.get_name() not in builtins.__dict__:
+                found.append(symbol.get_name())
+        for child in table.get_children():
+            visit(child, False)
+
+    visit(symtable.symtable(source, "<source>", "exec"), True)
+    return found
 
 
 def _source_of_function(function: types.FunctionType | Callable[..., object]) -> str:
